@@ -200,7 +200,9 @@ CATALOGUE = {
         ["-B", "dir"], ["-u", "sym"], ["-z", "now"], ["-T", "script"], ["-e", "entry"], ["-dumpversion"], ["-print-search-dirs"], ["-Q"], ["-time"], ["-save-temps"], ["-undef"], ["-trigraphs"],
         ["-D-X"], ["-I-weird"], ["--sysroot=/x"], ["-Wl,-rpath,/x"], ["-fdiagnostics-color=always"], ["-gdwarf-4"], ["-gsplit-dwarf"], ["-coverage"], ["-fcf-protection"],
     ],
-    "clang": [["-fsycl"], ["-p"], ["-pthread"], ["-fsycl-is-device"], ["-fcolor-diagnostics"], ["-fsycl-unnamed-lambda"], ["-Weverything"], ["-g3"], ["-O2"], ["-cc1"], ["-fPIC"]],
+    "clang": [["-fsycl"], ["-p"], ["-pthread"], ["-fsycl-is-device"], ["-fcolor-diagnostics"], ["-fsycl-unnamed-lambda"], ["-Weverything"], ["-g3"], ["-O2"], ["-cc1"], ["-fPIC"],
+              ["-mavx"], ["-mavx2"], ["-msse4.2"], ["-march=native"], ["-cxx-isystem", "d"], ["-fopenmp=libomp"], ["-fopenmp"], ["-include-pch", "x.pch"], ["-isystem-after", "d"],
+              ["-stdlib=libc++"], ["-fmodules"], ["-Xclang", "-fno-validate-pch"], ["-ffp-model=fast"], ["-fno-sycl"], ["-ffast-math"], ["-mllvm", "-x"], ["-Rpass=inline"]],
     "icx": [["-fsycl"], ["-fsycl-targets=spir64"], ["-fsycl-unnamed-lambda"], ["-qopenmp"], ["-fopenmp"], ["-xHost"], ["-g3"], ["-O2"], ["-fiopenmp"], ["-fopenmp-targets=spir64"]],
     "nvcc": [["-ccbin", "g++"], ["-gencode", "arch=compute_70,code=sm_70"], ["-arch=sm_70"], ["--gpu-architecture=sm_80"], ["-Xcompiler", "-fPIC"], ["-lineinfo"], ["-rdc=true"], ["-dc"],
              ["-dlink"], ["-std=c++17"], ["-O3"], ["-g"], ["-G"], ["--expt-relaxed-constexpr"], ["-use_fast_math"], ["-maxrregcount=64"], ["-cudart", "static"]],
@@ -312,6 +314,14 @@ def r5(ctx):
             except (argparse.ArgumentError, SystemExit) as e:
                 ctx.violation(key + ":aborts", f"`{comp} {' '.join(vec)}`: argparse rejects the command line ({type(e).__name__}: {str(e)[:80]}) - nothing catches it, the analysis aborts", f.loc())
                 continue
+            declared = {fl_ for opt in extra for fl_ in opt.get("flags", [])}
+            if not any(v_ in declared or v_.split("=", 1)[0] in declared for v_ in vec):
+                # a flag the compiler definition does not declare must not set off one that it does (modes and passes
+                # select predefined macros): argparse matches single-dash words by prefix
+                hit = sorted(k_ for k_, v_ in vars(got).items() if k_.startswith("x_") and v_ not in (None, False, []))
+                if hit:
+                    ctx.violation(key + ":triggers-declared-option", f"`{comp} {' '.join(vec)}` is not declared for {comp}, yet it is taken for a declared option (sets {[h[2:] for h in hit]}): argparse matches `{vec[0]}` as a prefix of a declared flag, so its modes/passes and their predefined macros are applied", f.loc())
+                    continue
             d, i, fl = list(got.defines or []), list(got.include_paths or []), list(got.include_files or [])
             if (d, i, fl) != (want_d, want_i, want_f):
                 ctx.violation(key + ":extraction", f"`{comp} {' '.join(vec)}` yields defines={d} include_paths={i} include_files={fl}; expected {want_d} / {want_i} / {want_f}", f.loc())
